@@ -36,6 +36,8 @@ THEOREMS = [
     "HedVerif.C11.value_rat",
     "HedVerif.C11.value_linear_rat",
     "HedVerif.C11.accept_value_rat",
+    "HedVerif.C11.go_unit_first",
+    "HedVerif.C11.unit_first_only_prefix_units",
 ]
 BUDGET = {"quick": 900, "thorough": 3600}
 NUMS_OK = ["3", "-3", "+3", "3.5", ".5", "3.", "1e3", "1E-3", "0", "007", "12.25e+2"]
@@ -127,6 +129,13 @@ def accept_sets(vocab, plural):
     return out
 
 
+def prefix_accept_sets(vocab, plural):
+    """class -> spellings of its unitPrefix units (the only ones that may stand before the number), from the XML"""
+    sub = dict(vocab, unit_classes=[dict(uc, units=[u for u in uc["units"] if "unitPrefix" in u["attrs"]])
+                                    for uc in vocab["unit_classes"]])
+    return accept_sets(sub, plural)
+
+
 def ref_accepts(acc, cnames, sp):
     return any(sp in acc[c][0] or sp.casefold() in acc[c][1] for c in cnames)
 
@@ -168,6 +177,36 @@ def same_value(mv, iv):
     return mv == iv
 
 
+def check_classes(ctx, name, schema, HedTag, ccases, answers, acc, pre_acc):
+    """`HedTag._get_tag_units_portion` on one unit class at a time against `Units.stripped`, and the property's rule:
+    a unit after the number is split off iff it is an accepted spelling of a unit WITHOUT unitPrefix, a unit before
+    the number iff it is an accepted spelling of a unit WITH unitPrefix."""
+    from hed.schema.hed_schema_constants import HedSectionKey
+    for (cn, ext, n, sp, pos), m in zip(ccases, answers):
+        case = {"schema": name, "unit_class": cn, "ext": ext}
+        try:
+            entry = schema.get_tag_entry(cn, HedSectionKey.UnitClasses)
+            value, units, unit_entry = HedTag._get_tag_units_portion(ext, {cn: entry})
+        except Exception as e:
+            ctx.violation("units-portion-raised", case, f"{type(e).__name__}: {e}")
+            continue
+        ctx.case((name, "class", cn, ext), nontrivial=True)
+        ctx.count("class-level:" + pos)
+        got = [value, units] if unit_entry is not None and value else [ext, None]
+        if [m["stripped"], m["unit"]] != got:
+            ctx.disagree("Units.stripped = HedTag._get_tag_units_portion (one class)", case, [m["stripped"], m["unit"]], got)
+        if pos in ("last", "first"):
+            is_pre = ref_accepts(pre_acc, [cn], sp)
+            accepted = ref_accepts(acc, [cn], sp)
+            want = accepted and (is_pre if pos == "first" else not is_pre)
+            if want:
+                ctx.count("class-level:accepted-" + pos + ("-prefix-unit" if is_pre else ""))
+            if (got == [n, sp]) != want or (not want and got != [ext, None]):
+                ctx.violation("unit-position-rule", case, {"impl": got, "expected_split": want, "unitPrefix": is_pre})
+        elif pos == "unknown-first" and got != [ext, None]:
+            ctx.violation("unknown-unit-first-split-off", case, {"impl": got})
+
+
 def run_schema(ctx, name, full):
     from hed import HedTag, HedString, load_schema_version
     from hed.schema.hed_schema_entry import pluralize
@@ -185,6 +224,7 @@ def run_schema(ctx, name, full):
         tags = ctx.rng.sample(tags, min(len(tags), 10))
     ucs = {uc["name"]: uc for uc in vocab["unit_classes"]}
     acc = accept_sets(vocab, pluralize.plural)
+    pre_acc = prefix_accept_sets(vocab, pluralize.plural)
     cases = []
     for tagname, cnames, numeric, vcs in tags:
         if set(vcs) - {"numericClass"}:
@@ -202,15 +242,46 @@ def run_schema(ctx, name, full):
                     cases.append((tagname, cnames, numeric, ext, ok, (u, mod) if ok is True else u, "unit"))
                     if ctx.rng.random() < 0.15:
                         cases.append((tagname, cnames, numeric, f"{ctx.rng.choice(NUMS_BAD)} {sp}", None, u, "badnum"))
+                    if " " not in sp:
+                        # the same spelling on the other side of the number: a unit may stand BEFORE the number iff it
+                        # carries unitPrefix (own XML reading), and a unitPrefix unit may not stand after it
+                        n2 = ctx.rng.choice(NUMS_OK)
+                        if pre:
+                            cases.append((tagname, cnames, numeric, f"{n2} {sp}", "bad", None, "prefixunit-last"))
+                        else:
+                            first_ok = ref_accepts(pre_acc, cnames, sp)
+                            cases.append((tagname, cnames, numeric, f"{sp} {n2}", None if first_ok else "bad", None,
+                                          "unit-first"))
+                        if ctx.rng.random() < 0.2:
+                            cases.append((tagname, cnames, numeric, f"{sp} {n2} {sp}", None, None, "unit-both-sides"))
         for n in ctx.rng.sample(NUMS_OK, 3):
             cases.append((tagname, cnames, numeric, n, "bare", None, "bare"))
         other = [u["name"] for c, uc in ucs.items() if c not in cnames for u in uc["units"]]
         for w in [ctx.rng.choice(other) if other else "zz", "zzunit", "3"]:
             cases.append((tagname, cnames, numeric, f"3 {w}", "bad", None, "wrongunit"))
         cases.append((tagname, cnames, numeric, "3ms", None, None, "nospace"))
+        cases.append((tagname, cnames, numeric, f"zzunit {ctx.rng.choice(NUMS_OK)}", "bad", None, "unknown-unit-first"))
+    # class level: every unit class (also those no bundled tag uses, e.g. currencyUnits with the prefix-type unit `$`),
+    # every unit, spelling samples, written after and before the number and on both sides
+    ccases = []
+    for cn, uc in ucs.items():
+        for u in uc["units"]:
+            for sp, ok, mod in spellings(ctx.rng, u, vocab["unit_modifiers"]):
+                if sp == "__plural__":
+                    sp = pluralize.plural(u["name"].lower())
+                if " " in sp:
+                    continue
+                n = ctx.rng.choice(NUMS_OK)
+                ccases += [(cn, f"{n} {sp}", n, sp, "last"), (cn, f"{sp} {n}", n, sp, "first")]
+                if ctx.rng.random() < 0.2:
+                    ccases.append((cn, f"{sp} {n} {sp}", None, sp, "both"))
+        ccases.append((cn, "zzunit 3", None, "zzunit", "unknown-first"))
     reqs = [{"op": "c11.schema", "name": name, "mods": mods, "classes": classes}] + \
-        [{"op": "c11.eval", "schema": name, "classes": c[1], "numeric": c[2], "ext": c[3]} for c in cases]
+        [{"op": "c11.eval", "schema": name, "classes": c[1], "numeric": c[2], "ext": c[3]} for c in cases] + \
+        [{"op": "c11.eval", "schema": name, "classes": [c[0]], "numeric": False, "ext": c[1]} for c in ccases]
     ans = ctx.model.batch(reqs)
+    check_classes(ctx, name, schema, HedTag, ccases, ans[1 + len(cases):], acc, pre_acc)
+    ans = ans[:1 + len(cases)]
     for c in ans[0]["classes"]:
         ctx.count(f"{name}:class-functional={c['functional']},emptyKey={c['emptyKey']}")
         ctx.count(f"class-unitsDistinct={c['unitsDistinct']}")
@@ -282,7 +353,8 @@ def run_schema(ctx, name, full):
 def run(ctx):
     ctx.extra["rule"] = ("every value-taking numeric tag with unit classes x every unit x {as declared, case variants, plural, "
                          "permitted prefixes, wrong-kind prefixes} x numeric literals, plus bare numbers, wrong-class units, "
-                         "unknown units, malformed numbers; non-trivial = has a unit text")
+                         "unknown units, malformed numbers; every spelling also on the other side of the number (unit first is legal iff the unit "
+                         "carries unitPrefix), on both sides, and an unknown unit first; non-trivial = has a unit text")
     ctx.notes.append("plural forms come from the implementation's own pluralizer (inflect): data, not modelled")
     ctx.notes.append("a factor literal '10^n' is read by the code as float('10en') = 10^(n+1); the model follows the code "
                      "(8.3.0 itself spells these factors '10e-3' etc.) - observation, see DESIGN.md")
@@ -302,6 +374,18 @@ def replay(ctx, rec):
     vocab = schema_xml.read(schema_xml.bundled()[name])
     schema = load_schema_version(name)
     mods, classes = vocab_payload(vocab, pluralize.plural)
+    if "unit_class" in case:
+        cn, ext = case["unit_class"], case["ext"]
+        a = ctx.model.batch([{"op": "c11.schema", "name": name, "mods": mods, "classes": classes},
+                             {"op": "c11.eval", "schema": name, "classes": [cn], "numeric": False, "ext": ext}])[1]
+        first, _, last = ext.partition(" ")
+        pos = "unknown-first" if first == "zzunit" else "both" if ext.count(" ") > 1 else \
+            "first" if first not in NUMS_OK else "last"
+        n, sp = (last, first) if pos == "first" else (first, last)
+        check_classes(ctx, name, schema, HedTag, [(cn, ext, n, sp, pos)], [a], accept_sets(vocab, pluralize.plural),
+                      prefix_accept_sets(vocab, pluralize.plural))
+        print("replayed", json.dumps(case))
+        return
     t = next(t for t in vocab["tags"] if t["long"].endswith("/" + case["tag"] + "/#"))
     a = ctx.model.batch([{"op": "c11.schema", "name": name, "mods": mods, "classes": classes},
                          {"op": "c11.eval", "schema": name, "classes": t["attrs"]["unitClass"],
